@@ -12,14 +12,14 @@ SHARDS = {"quick": 16, "thorough": 16}
 TIMEOUT = {"quick": 1200, "thorough": 7200}
 RULE = (
     "configurations: n_thetas 3-32 (all triples enumerated), 1-8 plates of sizes 1-12 (always a size-1 plate or a single "
-    "plate somewhere in the run), variances log-uniform in [1e-3,1e3], means N(0,1)x{0.1,1,10}, symmetric non-negative "
+    "plate somewhere in the run), variances log-uniform in [1e-3,1e3], means N(0,1)x{0.1,1,10,100} incl. plates on which all samples agree next to plates on which they disagree strongly, occasional plates of 20-48 experiments, symmetric non-negative "
     "distance matrices with 0-40% zero entries (and all-zero), max_chunk in {1,2,3,50}; each plate's score from the "
     "homoscedastic, heteroscedastic, vectorized and GaussianDBALScorer entry points is compared with a scalar fsum "
     "reference at 1e-9(1+|ref|) and under metamorphic changes (alone vs together, shuffled experiments, shuffled plates, "
     "every max_chunk, relabelled thetas). A case is one (configuration, entry point); distinct = hash of inputs; "
     "non-trivial = >=2 plates of unequal sizes or >=4 thetas"
 )
-ASSUMPTIONS = ["means bounded by 1e2 so squares stay finite", "scalar reference uses math.fsum and a stable log-sum-exp"]
+ASSUMPTIONS = ["means bounded by a few hundred so squares stay finite", "scalar reference uses math.fsum and a stable log-sum-exp"]
 REQUIRED = {"plate_scores_vs_reference": {"quick": 10000, "thorough": 200000}, "metamorphic_checks": {"quick": 10000, "thorough": 200000}, "scorer_entry_runs": {"quick": 800, "thorough": 15000}, "all_zero_distance_cases": {"quick": 10, "thorough": 200}}
 N_CFG = {"quick": 960, "thorough": 16000}
 TOL = 1e-9
@@ -41,8 +41,15 @@ def gen_config(rng):
     sizes = [int(rng.integers(1, 13)) for _ in range(P)]
     if rng.random() < 0.5:
         sizes[int(rng.integers(P))] = 1
-    mscale = float(rng.choice([0.1, 1.0, 10.0]))
+    if rng.random() < 0.15:
+        sizes[int(rng.integers(P))] = int(rng.integers(20, 49))  # one large plate next to small ones
+    mscale = float(rng.choice([0.1, 1.0, 10.0, 100.0]))
     means = [rng.normal(size=(T, e)) * mscale for e in sizes]
+    if rng.random() < 0.3:
+        # mixed company: a plate on which the posterior samples (nearly) agree next to plates on which they
+        # disagree strongly - the log-terms of the two then lie hundreds to thousands of units apart
+        p0 = int(rng.integers(P))
+        means[p0] = np.tile(rng.normal(size=(1, sizes[p0])), (T, 1)) + rng.normal(size=(T, sizes[p0])) * float(rng.choice([0.0, 1e-6, 1e-2]))
     hetero = [np.exp(rng.uniform(np.log(1e-3), np.log(1e3), size=(T, e))) for e in sizes]
     homo = np.exp(rng.uniform(np.log(1e-3), np.log(1e3), size=(P, T)))
     d = np.abs(rng.normal(size=(T, T))) * float(rng.choice([1e-3, 1.0, 50.0]))
